@@ -37,7 +37,9 @@ type rtStore struct {
 	holdAt  int32
 	// holdApplied: the held call is APPLIED first and its (successful) answer delivered after `resume`
 	holdApplied bool
-	reached     chan struct{}
+	// holdLate: the held call is kept back BEFORE it reaches the storage and goes through (applied, answered) after `resume`
+	holdLate bool
+	reached  chan struct{}
 	resume  chan struct{}
 	mu      sync.Mutex
 	okBy    map[string][]time.Time // Locker (receiver pointer of supportTimeout) -> times of its successful renewals
@@ -76,15 +78,34 @@ func (s *rtStore) WaitForVersionChange(ctx context.Context, key, ver string) err
 	return s.Storage.WaitForVersionChange(ctx, key, ver)
 }
 
+// Put: the lock protocol as it is never overwrites a record unconditionally; a renewal that does (instead of its
+// compare-and-set) is a renewal call all the same: counted, held and failed like one, so that "the holder died",
+// "a renewal is in flight" and "renewal calls after Unlock" mean what they say whatever call the renewal uses.
+func (s *rtStore) Put(ctx context.Context, r kvs.Record) (kvs.Record, error) {
+	if renewalOwner() == "" {
+		return s.Storage.Put(ctx, r) // (not from a renewal: the harness's own writes)
+	}
+	return s.renewal(func() (kvs.Record, error) { return s.Storage.Put(ctx, r) })
+}
+
 func (s *rtStore) CasByVersion(ctx context.Context, r kvs.Record) (kvs.Record, error) {
+	return s.renewal(func() (kvs.Record, error) { return s.Storage.CasByVersion(ctx, r) })
+}
+
+func (s *rtStore) renewal(call func() (kvs.Record, error)) (kvs.Record, error) {
 	n := atomic.AddInt32(&s.casCalls, 1)
 	s.lastCas.Store(time.Now())
 	owner := renewalOwner()
 	if n == atomic.LoadInt32(&s.holdAt) && s.resume != nil && s.holdApplied {
-		res, err := s.Storage.CasByVersion(ctx, r)
+		res, err := call()
 		close(s.reached)
 		<-s.resume
 		return res, err
+	}
+	if n == atomic.LoadInt32(&s.holdAt) && s.resume != nil && s.holdLate {
+		close(s.reached)
+		<-s.resume
+		return call()
 	}
 	if n == atomic.LoadInt32(&s.holdAt) && s.resume != nil {
 		close(s.reached)
@@ -94,7 +115,7 @@ func (s *rtStore) CasByVersion(ctx context.Context, r kvs.Record) (kvs.Record, e
 	if n == atomic.LoadInt32(&s.failAt) || s.failSet[n] || (atomic.LoadInt32(&s.failAfter) > 0 && n >= atomic.LoadInt32(&s.failAfter)) {
 		return kvs.Record{}, errors.New("storage temporarily unavailable (injected)")
 	}
-	res, err := s.Storage.CasByVersion(ctx, r)
+	res, err := call()
 	if err == nil {
 		atomic.AddInt32(&s.casOK, 1)
 		s.mu.Lock()
@@ -245,6 +266,50 @@ func rtAdoptScenario(lease time.Duration) rtResult {
 	}
 	res.info = fmt.Sprintf("renewals ok per locker: %d lockers seen, late successes of the unlocked one: %d", known, late)
 	b.Unlock()
+	return res
+}
+
+// rtLateRenewalScenario: the holder's renewal call is on its way to the storage (not yet there) when the holder
+// unlocks; Unlock completes (record deleted, token back), then the call arrives.  Every holder has unlocked:
+// from then on the storage holds no record of the lock and another Locker acquires at once — a renewal that
+// arrives late must find nothing to renew and leave nothing behind.
+func rtLateRenewalScenario(lease time.Duration) rtResult {
+	res := rtResult{name: fmt.Sprintf("late-renewal lease=%v", lease)}
+	st := &rtStore{Storage: inmem.New(), holdAt: 1, holdLate: true, reached: make(chan struct{}), resume: make(chan struct{})}
+	pa := dist.NewKvsLockProvider(st, "/rt/")
+	pt := dist.NewKvsLockProvider(st, "/rt/")
+	dist.VerifSetLease(pa, lease)
+	dist.VerifSetLease(pt, lease)
+	defer pa.Shutdown()
+	defer pt.Shutdown()
+	a := pa.NewLocker("l")
+	third := pt.NewLocker("l").(tryLocker)
+	a.Lock()
+	select {
+	case <-st.reached:
+	case <-time.After(3 * lease):
+		res.bad = "no renewal was issued within 3 lease periods"
+		close(st.resume)
+		a.Unlock()
+		return res
+	}
+	a.Unlock()
+	close(st.resume) // the renewal call reaches the storage now
+	bg := context.Background()
+	t0 := time.Now()
+	time.Sleep(lease / 5)
+	// (one lease and a half: a record resurrected ONCE would lapse within a lease; one that is kept alive does not)
+	for time.Since(t0) < lease*3/2 {
+		time.Sleep(lease / 10)
+	}
+	if it, err := st.ListKeys(bg, "*"); err == nil && it.HasNext() {
+		res.bad = fmt.Sprintf("every holder has unlocked, yet %v after Unlock the storage holds a record of the lock again: a renewal that arrived after the Unlock re-created it and keeps it alive (renewal calls=%d ok=%d)", time.Since(t0).Round(time.Millisecond), atomic.LoadInt32(&st.casCalls), atomic.LoadInt32(&st.casOK))
+	} else if !third.TryLock(bg) {
+		res.bad = fmt.Sprintf("every holder has unlocked, yet %v after Unlock another Locker's TryLock fails", time.Since(t0).Round(time.Millisecond))
+	} else {
+		third.Unlock()
+	}
+	res.info = fmt.Sprintf("renewal calls=%d ok=%d", atomic.LoadInt32(&st.casCalls), atomic.LoadInt32(&st.casOK))
 	return res
 }
 
@@ -844,6 +909,23 @@ func runLockRT(ctx *Ctx) {
 			ctx.R.Stats.Notes = append(ctx.R.Stats.Notes, "timing flake discarded: "+ra.name+": "+ra.bad)
 			ra.bad = ""
 		}
+	}
+	rl := rtGuard(ctx, rtLateRenewalScenario)(lease)
+	if rl.bad != "" {
+		if r2 := rtGuard(ctx, rtLateRenewalScenario)(2 * lease); r2.bad == "" {
+			ctx.R.Stats.Notes = append(ctx.R.Stats.Notes, "timing flake discarded: "+rl.name+": "+rl.bad)
+			rl.bad = ""
+		} else {
+			rl.bad = r2.bad
+		}
+	}
+	ctx.R.Case("realtime")
+	ctx.R.Nontrivial("late-renewal")
+	ctx.R.Op("scenario late-renewal-1", "ok")
+	ctx.R.Comment(rl.name + ": " + rl.info)
+	if rl.bad != "" {
+		ctx.R.Quiet("mon C04-no-residue", rl.name+": "+rl.bad)
+		ctx.R.Quiet("mon C05-renewal-dies-after-unlock", rl.name+": "+rl.bad)
 	}
 	// two unrelated locks in one process: an Unlock overlapping a renewal in flight must not touch the other lock's lease
 	rx := rtGuard(ctx, rtCrossScenario)(lease)
